@@ -351,13 +351,16 @@ P_C15_DeliveredBlocksConformant ==
      /\ (\E j \in 1..Len(h) : ~InTokOK(h[j]) \/ OutOfSeq(h, j)) => Count(last.p.e, IsHdrEvent) = 0
 \* C16: DATA against content-length
 P_C16_ContentLength ==
-  (OneFrame("DATA") /\ Has(Pre, last.fs[1].sid) /\ Pre.streams[last.fs[1].sid].eclSet) =>
+  (OneFrame("DATA") /\ Has(Pre, last.fs[1].sid) /\ ~Excused({"content_length_rule_differs"})) =>
      LET f == last.fs[1]
          s == Pre.streams[f.sid]
          tot == s.acl + f.n
-     IN /\ (ROk /\ f.es /\ Count(last.p.e, LAMBDA e : e.t = "Data") > 0) => tot = s.ecl
-        /\ last.p.r.c = "InvalidBodyLengthError" => (tot > s.ecl \/ (f.es /\ tot # s.ecl))
-        /\ (ROk /\ Count(last.p.e, LAMBDA e : e.t = "Data") > 0) => tot <= s.ecl
+         \* a response defined to have no content is refused exactly when it carries payload, whatever it declares;
+         \* any other message exactly when its payload contradicts the length it declared (padding does not count)
+         bad == IF s.snc THEN f.n > 0 ELSE s.scl # <<>> /\ (tot > s.scl[1] \/ (f.es /\ tot # s.scl[1]))
+         delivered == ROk /\ Count(last.p.e, LAMBDA e : e.t = "Data") > 0
+     IN /\ last.p.r.c = "InvalidBodyLengthError" => bad
+        /\ delivered => ~bad
 \* C18: a receive that raises a ProtocolError emits exactly one GOAWAY carrying the exception's code and the
 \* highest peer-initiated stream id; the code for an undecodable block is excused by the marked deviation
 P_C18_OneGoAwayWithCode ==
